@@ -206,3 +206,64 @@ def malformed_stream(rng, p, maxlen=60):
         else:
             out += message(p, rng.randrange(4), biased_bytes(rng, p, rng.randint(0, 6)))
     return bytes(out)
+
+
+# ---------------------------------------------------------------- __arm__ configuration (fixed fragment buffer)
+
+ARM_FLAGS = ["-D__arm__", "-include", os.path.join(HERE, "stubs", "arm_prelude.h")]
+
+
+def compile_probe_arm(outdir, name="probe_arm"):
+    """The same probe source against the __arm__ branch of IConnection.cpp/.h (on x86 the define only selects the branch)."""
+    exe = os.path.join(outdir, name)
+    cmd = ["g++", "-std=c++17", "-O1", "-g", "-w"] + SAN + ARM_FLAGS + ["-I" + CPPDIR, os.path.join(HERE, "cxx", "conn_probe.cpp"),
+                                                                      os.path.join(CPPDIR, "IConnection.cpp"), "-lpthread", "-o", exe]
+    p = subprocess.run(cmd, stdout=subprocess.PIPE, stderr=subprocess.STDOUT, timeout=600)
+    out = "\n".join(l for l in p.stdout.decode("utf-8", "replace").split("\n") if "WARNING conda" not in l)
+    return (exe if p.returncode == 0 else None), out
+
+
+def parse_arm(line):
+    """'[Warning...]ok <buf> <required> <n> <deliveries...> | <cnt> <exc> <array>' -> (status, array, cnt, exc, required, [deliveries])"""
+    if isinstance(line, tuple):
+        return ("crash", b"", 0, False, 0, [], line[1])
+    i = line.find("ok ")
+    t = line[i:].split()
+    n = int(t[3])
+    k = 4 + n
+    assert t[k] == "|", line[:200]
+    return (t[0], unhx(t[k + 3]), int(t[k + 1]), t[k + 2] == "1", int(t[2]), [unhx(x) for x in t[4:4 + n]])
+
+
+def model_arm(v):
+    return (v[0].decode(), v[1], int(v[2] or b"0"), v[3] == b"1", int(v[4] or b"0"), list(v[5]))
+
+
+def arm_sizes(rng, largest):
+    """Payload sizes around the interesting limits: tiny, near the largest message size, beyond it, beyond the buffer."""
+    return rng.choice([0, 1, 3, 7, 8, 20, max(0, largest - 9), max(0, largest - 8), max(0, largest - 7), largest, 300, 504, 505, 512,
+                       600, rng.randint(0, 700)])
+
+
+def arm_stream(rng, p, largest, fitting):
+    """(items, tail): well-formed stream; fitting=True keeps every message within `largest` bytes."""
+    items = []
+    for _ in range(rng.randint(1, 6)):
+        f = biased_bytes(rng, p, rng.choice([0, 0, 1, 4]), exclude=p[0])
+        size = arm_sizes(rng, largest)
+        if fitting:
+            size = min(size, max(0, largest - 8))
+        items.append((f, message(p, rng.randrange(4), biased_bytes(rng, p, size))))
+    return items, biased_bytes(rng, p, rng.choice([0, 2]), exclude=p[0])
+
+
+def chunking_within(rng, stream, maxlen):
+    """Random chunking with every chunk at most maxlen bytes (>= 1)."""
+    res, i = [], 0
+    while i < len(stream):
+        n = min(maxlen, rng.choice([1, 2, 7, 8, 9, maxlen, max(1, maxlen - 1), rng.randint(1, maxlen)]))
+        res.append(stream[i:i + n])
+        i += n
+        if rng.random() < 0.02:
+            res.append(b"")
+    return res
